@@ -424,19 +424,47 @@ def run(chk: Check):
     # (2) every single edit of a base definition changes the hash (checked on the real compiler)
     nbases = 40 if thorough else 8
     ecases, emeta = [], []
+
+    def edit_case(d, emit=False):
+        return dict(files={"root.yaml": yaml_file(consts=consts, aliases=aliases,
+                                                   structs=structs + ([d] if d["kind"] == "struct" else []),
+                                                   msgs=[d] if d["kind"] != "struct" else [])},
+                    root="root.yaml", import_coredefs=False, auto_pad=True, validate_alignment=True,
+                    emit=(["python", "c", "javascript", "matlab"] if emit else []))
     for b in range(nbases):
         base = gen_message(rng, natives, name=ident(rng, 3, 10, upper=True), mid=200 + 7 * b,
                            nfields=rng.randint(2, 4))
         variants = [("base", base)] + edits(rng, base, natives)
         for tag, d in variants:
-            ecases.append(dict(files={"root.yaml": yaml_file(consts=consts, aliases=aliases, structs=structs, msgs=[d])},
-                               root="root.yaml", import_coredefs=False, auto_pad=True, validate_alignment=True))
+            ecases.append(edit_case(d, emit=(b == 0)))      # the four emitted literals too, for the first base
             emeta.append((b, tag, d))
+    # the string form `fields: OTHER` (messages and structs): change of the reuse target, reuse <-> the explicit
+    # dict of the very same fields (same layout, different definition text: C13_injective), and the usual edits
+    lib = {x["name"]: x for x in structs}
+    gid = 10 ** 5
+    for kind in ("message", "struct"):
+        for tgt in ("S_PT", "S_MIX"):
+            gid += 1
+            nm = ident(rng, 4, 10, upper=True)
+            base = dict(kind=kind, name=nm, id=(900 + gid % 50 if kind == "message" else None), fields=None, reuse=tgt)
+            other_t = "S_MIX" if tgt == "S_PT" else "S_PT"
+            variants = [("base", base),
+                        ("reuse-target-change", dict(base, reuse=other_t)),
+                        ("reuse-target-change", dict(base, reuse="S_COPY")),          # S_COPY copies S_PT: same layout as S_PT
+                        ("reuse->explicit-dict-of-the-same-fields", dict(base, reuse=None, fields=list(lib[tgt]["fields"]))),
+                        ("reuse->single-field-of-that-type", dict(base, reuse=None, fields=[("body", tgt)])),
+                        ("rename", dict(base, name=nm + "x"))]
+            if kind == "message":
+                variants += [("id-change", dict(base, id=base["id"] + 1)),
+                             ("message->signal", dict(kind="signal", name=nm, id=base["id"], fields=None, reuse=None)),
+                             ("message->struct", dict(kind="struct", name=nm, id=None, fields=None, reuse=tgt))]
+            for tag, d in variants:
+                ecases.append(edit_case(d, emit=True))
+                emeta.append((gid, tag, d))
     # `fields: OTHER` against a single field called `fields` of type OTHER: the same text; the second spelling
     # must not be an accepted definition (for messages and for structs)
     a = dict(kind="message", name="LOOKALIKE", id=77, fields=None, reuse="S_PT")
-    ecases.append(dict(files={"root.yaml": yaml_file(consts=consts, aliases=aliases, structs=structs, msgs=[a])},
-                       root="root.yaml", import_coredefs=False, auto_pad=True, validate_alignment=True))
+    ecases.append(edit_case(a))
     emeta.append((10 ** 6, "base", a))
     lk = [dict(kind="message", name="LOOKALIKE", id=77, fields=[("fields", "S_PT")], reuse=None),
           dict(kind="message", name="LOOKALIKE2", id=78, fields=[("x", "int32"), ("fields", "double")], reuse=None),
@@ -455,24 +483,54 @@ def run(chk: Check):
         elif res["exc"] != "RTMASyntaxError":
             chk.spec_failure("field-named-fields:wrong-error", f"{d['name']}: {res['exc']}: {res['msg'][:100]}", dict(edited=d))
     eres = run_impl(ecases)
-    base_hash: Dict[int, Tuple[str, dict]] = {}
+    base_info: Dict[int, Tuple[dict, dict, Dict[str, str]]] = {}
+
+    def own(res, d):
+        pool = res["structs"] if d["kind"] == "struct" else res["messages"]
+        return next(m for m in pool if m["name"] == d["name"])
+
+    def own_literals(res, d) -> Dict[str, str]:
+        if not res.get("outputs"):
+            return {}
+        lits = parse_literals(res["outputs"])
+        langs = ("python",) if d["kind"] == "struct" else ("python", "c", "javascript", "matlab")
+        return {l: lits[l].get(d["name"].lstrip("_0123456789") if l == "matlab" else d["name"]) for l in langs}
     for (b, tag, d), res in zip(emeta, eres):
         if not must_ok(res, f"edit {tag}"):
             continue
-        note_defs(res, [d])
-        h = next(m["hash"] for m in res["messages"] if m["name"] == d["name"])
+        if res.get("emit_exc"):
+            chk.broken_obligation("harness: a back end failed on an edit variant", str(res["emit_exc"]))
+        note_defs(res, [d], parse_literals(res["outputs"]) if res.get("outputs") else None)
+        m = own(res, d)
+        lits = own_literals(res, d)
+        for lang, lit in lits.items():
+            if lit is None:
+                chk.spec_failure(f"literal-missing:{lang}", f"{d['name']}: no hash literal in the {lang} output", dict(defn=d, lang=lang))
+            elif int(lit, 16) != int(m["hash"][:8], 16):
+                chk.spec_failure(f"literal-differs:{lang}", f"{d['name']}: {lang} literal {lit} != {m['hash'][:8]}", dict(defn=d, lang=lang))
         if tag == "base":
-            base_hash[b] = (h, d)
+            base_info[b] = (d, m, lits)
             continue
         dist["edit:" + tag] = dist.get("edit:" + tag, 0) + 1
         nontrivial.add(("edit", key_of(d)))
-        bh, bd = base_hash[b]
-        if h == bh:
-            key = "hash-unchanged:" + tag
-            chk.spec_failure(key, f"{tag}: {bd['name']} keeps hash {h[:8]} although the definition changed",
-                             dict(base=bd, edited=d, hash=h))
-        elif h[:8] == bh[:8]:
-            chk.spec_failure("truncated-hash-collision", f"{tag}: 32-bit prefixes equal ({h[:8]})", dict(base=bd, edited=d))
+        if b not in base_info:
+            continue
+        bd, bm, blits = base_info[b]
+        rep = dict(base=bd, edited=d, base_raw=bm["raw"], edited_raw=m["raw"], base_hash=bm["hash"], edited_hash=m["hash"])
+        # the model's C13_injective: different (well-formed) definitions have different texts; the digest must follow
+        if m["raw"] == bm["raw"] or m["hash"] == bm["hash"]:
+            chk.spec_failure("edit-does-not-change-hash:" + tag,
+                             f"{tag}: {bd['kind']} {bd['name']} -> {d['kind']} {d['name']}: the hashed text"
+                             f"{' is unchanged' if m['raw'] == bm['raw'] else ' changed'} and the version stays {m['hash'][:8]}", rep)
+        elif m["hash"][:8] == bm["hash"][:8]:
+            chk.spec_failure("truncated-hash-collision", f"{tag}: 32-bit prefixes equal ({m['hash'][:8]})", rep)
+        for lang in lits:
+            if lits.get(lang) is not None and blits.get(lang) is not None and int(lits[lang], 16) == int(blits[lang], 16):
+                chk.spec_failure(f"edit-does-not-change-hash:{tag}:{lang}-literal",
+                                 f"{tag}: the {lang} output carries {lits[lang]} before and after the edit of {bd['name']}", rep)
+                dist["edit-literal-unchanged"] = dist.get("edit-literal-unchanged", 0) + 1
+        if lits:
+            dist["edit-with-literals"] = dist.get("edit-with-literals", 0) + 1
 
     # (3) the same definition elsewhere / with noise: the hash must not change
     icases, imeta = [], []
